@@ -301,6 +301,33 @@ func battery(c *vk.Ctx, e *engine.Engine, ref *hx.RefDB, ixn string, h []hx.Op, 
 		}
 	}
 	_ = rels
+	// text / hybrid combined with a metadata filter and a graph scope (each may be empty, both may
+	// be non-empty and disjoint: then nothing may be returned)
+	if ix.Cfg.Lang != "" {
+		for _, root := range ids {
+			for _, dir := range []string{"out", "in"} {
+				for _, rs := range [][]string{{"r"}, {"q"}} {
+					gq := &engine.GraphQuery{RootID: root, Relations: rs, Direction: dir, MaxDepth: 1}
+					ball := rg.Ball(root, rs, 1, dir)
+					for _, f := range []string{"", "s=x", "s=y"} {
+						for _, tq := range []string{"hello", "world"} {
+							for _, alpha := range []float64{0, 0.5} {
+								*nq++
+								got, err := e.VSearch(ixn, qs[0], n+1, f, tq, 50, alpha, gq)
+								if err == nil && checkIDs(fmt.Sprintf("VSearch(hybrid %q alpha=%g filter=%q scope root=%s dir=%s rels=%v)", tq, alpha, f, root, dir, rs), got, n+1, f, ball) {
+									return true
+								}
+								got, err = e.VSearch(ixn, make([]float32, dim), n+1, f, tq, 50, alpha, gq)
+								if err == nil && checkIDs(fmt.Sprintf("VSearch(text %q filter=%q scope root=%s dir=%s rels=%v)", tq, f, root, dir, rs), got, n+1, f, ball) {
+									return true
+								}
+							}
+						}
+					}
+				}
+			}
+		}
+	}
 	// text / hybrid on indexes with an analyser
 	if ix.Cfg.Lang != "" {
 		for _, tq := range []string{"hello", "world hello", "zzz"} {
